@@ -217,28 +217,23 @@ Fixpoint wfb (f : field) : bool :=
 (* Tags name the clause that fails; the check uses them as defect classes. *)
 Inductive tag :=
 | TRawPad        (* window reaches the frame-offset padding of a RAW whose native-type padding differs from the return-type padding *)
-| TRawNeg        (* RAW window lies entirely before sample 0 (reached through PHASE) *)
-| TUnaligned     (* MULTIPLY/DIVIDE/WINDOW/MPLEX: spf1 does not divide s*spf2 *)
+| TUnaligned     (* two/three-input field: spf1 does not divide s*spf2 *)
 | TEmpty2        (* MULTIPLY/DIVIDE/WINDOW/MPLEX: first input has data at s but the second has none *)
-| TLincomRate    (* LINCOM: rate of a later input is not a multiple of the first's *)
 | TMplexRate     (* MPLEX with different rates *)
 | TMplexNeg      (* MPLEX reached at a negative sample (implementation dependent) *)
 | TAllocZero     (* a zero-length buffer is requested from _GD_Alloc: LINTERP/INDIR read with n = 0, third LINCOM input after the second ended the field *)
-| TMplexSeek     (* MPLEX: re-positioning the inputs after the look-back reaches a negative offset *)
-| THere.         (* some field is reached at sample -1, which _GD_DoField takes for GD_HERE *)
+| TMplexSeek.    (* MPLEX: re-positioning the inputs after the look-back reaches a negative offset *)
 
 Definition divides (a b : Z) : bool := b mod a =? 0.
 Definition tag_if (b : bool) (t : tag) : list tag := if b then [t] else [].
 
 (* the clauses violated by reading n samples of f from s as rt; [] = covered *)
 Fixpoint uncovered (rt : ctype) (f : field) (s n : Z) : list tag :=
-  tag_if (s =? -1) THere ++
   match f with
   | Raw id =>
       let r := db id in
       if n <=? 0 then [] else
-      tag_if ((s <? raw_start r) && negb (pad_ok A rt (r_ty r))) TRawPad ++
-      tag_if (s + n <? 0) TRawNeg
+      tag_if ((s <? raw_start r) && negb (pad_ok A rt (r_ty r))) TRawPad
   | Index => []
   | Phase g sh => uncovered rt g (s + sh) n
   | Un o g => tag_if (u_alloc o && (n =? 0)) TAllocZero ++ uncovered (u_in o rt) g s n
@@ -247,26 +242,20 @@ Fixpoint uncovered (rt : ctype) (f : field) (s n : Z) : list tag :=
       let c1 := spec_count g s n in
       uncovered rt g s n ++
       (if c1 <=? 0 then [] else
-       tag_if (Z.quot (s * s2) s1 =? -1) THere ++
-       if b_lincom o then
-         tag_if (negb (divides s1 s2)) TLincomRate ++
-         uncovered F64 h (s * s2 / s1) (cdiv (c1 * s2) s1)
-       else
-         tag_if (negb (divides s1 (s * s2))) TUnaligned ++
-         tag_if (negb (eltb (s * s2 / s1) (eof h))) TEmpty2 ++
-         uncovered (b_in2 o) h (s * s2 / s1) (cdiv (c1 * s2) s1))
+       tag_if (negb (divides s1 (s * s2))) TUnaligned ++
+       (if b_lincom o then [] else tag_if (negb (eltb (s * s2 / s1) (eof h))) TEmpty2) ++
+       uncovered (b_in2 o) h (s * s2 / s1) (cdiv (c1 * s2) s1))
   | Tri o g h l =>
       let s1 := spf g in let s2 := spf h in let s3 := spf l in
       let c1 := spec_count g s n in
       uncovered rt g s n ++
       (if c1 <=? 0 then [] else
-       tag_if ((Z.quot (s * s2) s1 =? -1) || (Z.quot (s * s3) s1 =? -1)) THere ++
-       tag_if (negb (divides s1 s2)) TLincomRate ++
+       tag_if (negb (divides s1 (s * s2))) TUnaligned ++
        uncovered F64 h (s * s2 / s1) (cdiv (c1 * s2) s1) ++
        let c2 := spec_count h (s * s2 / s1) (cdiv (c1 * s2) s1) in
        if c2 <=? 0 then [] else
-       let n1 := if c2 * s1 =? c1 * s2 then c1 else c2 * s1 / s2 in
-       tag_if (negb (divides s1 s3)) TLincomRate ++
+       let n1 := if c2 * s1 <? c1 * s2 then c2 * s1 / s2 else c1 in
+       tag_if (negb (divides s1 (s * s3))) TUnaligned ++
        tag_if (cdiv (n1 * s3) s1 =? 0) TAllocZero ++
        uncovered F64 l (s * s3 / s1) (cdiv (n1 * s3) s1))
   | Mplex g h cnt _ =>
@@ -274,7 +263,6 @@ Fixpoint uncovered (rt : ctype) (f : field) (s n : Z) : list tag :=
       let c1 := spec_count g s n in
       uncovered rt g s n ++
       (if c1 <=? 0 then [] else
-       tag_if (Z.quot (s * s2) s1 =? -1) THere ++
        tag_if (negb (s1 =? s2)) TMplexRate ++
        tag_if (s <? 0) TMplexNeg ++
        tag_if (negb (eltb (s * s2 / s1) (eof h))) TEmpty2 ++
